@@ -66,6 +66,17 @@ def run(ctx):
                         continue           # the writer refuses what it cannot represent
                     rep.violation("write-raised:%d.%d:%s" % (v[0], v[1], name), "write_bytecode_file raised %s (%s) for a %d.%d file" % (r["write_err"], r.get("msg"), v[0], v[1]), inp)
                     continue
+                # tie of the writer Model (dump_code3 + plain values) used by C13_write_read / C13_roundtrip
+                if (3, 4) <= v <= (3, 10):
+                    hx = 32 if v >= (3, 7) else 24            # header: 16 bytes from 3.7, 12 before
+                    mo = drv.ask(["x.marshdumpcode %d %d %s" % (v[0], v[1], oc["pyc"][hx:])])[0]
+                    if mo not in ("(skip-float)",) and mo.replace("-", "") != r["pyc"][hx:]:
+                        rep.violation("corr:dumpcode:%d.%d:%s" % (v[0], v[1], name),
+                                      "Model of _Marshaller (dump_code3) disagrees with the implementation on %r (%d.%d): impl %s.. model %s.." % (
+                                          name, v[0], v[1], r["pyc"][hx:hx + 80], mo[:80]),
+                                      dict(inp, impl=r["pyc"][hx:8000], model=mo[:8000]), found_input=False)
+                    rep.coverage.setdefault("writer_model_tie", {"compared": 0, "skipped_float": 0})
+                    rep.coverage["writer_model_tie"]["skipped_float" if mo == "(skip-float)" else "compared"] += 1
                 # the interpreter named by the magic loads it, in a fresh process
                 o = Oracle(v)
                 try:
